@@ -297,6 +297,10 @@ struct Shared {
     size: TerminalSize,
     commands: u64,
     fail_execute_in: Option<u64>,
+    /// command log of the session (only kept when tracing)
+    log: Option<Vec<String>>,
+    /// frames_drop was called with a backlog
+    dropped: bool,
 }
 
 struct StubTerm {
@@ -333,6 +337,9 @@ impl StubTerm {
         let mut shared = self.shared.borrow_mut();
         for _ in 0..n {
             let Some(chunk) = shared.pending.pop_front() else { break };
+            if let Some(log) = shared.log.as_mut() {
+                log.push(format!("  delivered chunk of {} commands", chunk.len()));
+            }
             for cmd in chunk.iter() {
                 shared.screen.execute(cmd);
             }
@@ -343,6 +350,9 @@ impl StubTerm {
         let mut shared = self.shared.borrow_mut();
         if !shared.current.is_empty() {
             let chunk = std::mem::take(&mut shared.current);
+            if let Some(log) = shared.log.as_mut() {
+                log.push(format!("  chunk closed: {:?}", chunk));
+            }
             shared.pending.push_back(chunk);
         }
     }
@@ -418,6 +428,11 @@ impl Terminal for StubTerm {
     fn frames_drop(&mut self) {
         let mut shared = self.shared.borrow_mut();
         shared.current.clear();
+        let pending = shared.pending.len();
+        shared.dropped = true;
+        if let Some(log) = shared.log.as_mut() {
+            log.push(format!("  frames_drop: {} pending chunks", pending));
+        }
         if self.drop_all {
             shared.pending.clear();
         } else {
@@ -625,6 +640,8 @@ fn check_screen(screen: &Screen, snapshot: &Snapshot, size: TerminalSize, contex
         size,
         commands: 0,
         fail_execute_in: None,
+        log: None,
+        dropped: false,
     }));
     let mut term = StubTerm { shared: shared.clone(), caps: TerminalCaps::default(), script: Rc::new(RefCell::new(VecDeque::new())), drop_all: true };
     let mut renderer = TerminalRenderer::new(&mut term, true).map_err(|e| Violation::new(P, "C01.error", "scratch-new", format!("{e:?}")))?;
@@ -785,7 +802,7 @@ fn run(ctx: &Ctx, src: &mut Src) -> WorldResult {
     let mut pools = gen_pools(ctx, src, size);
     let prefill = src.chance(1, 3);
     src.log(|| format!("terminal {}x{} ppc={:?} personality={} prefill={}", size.cells.height, size.cells.width, size.pixels_per_cell(), if layered { "layered" } else { "cell" }, prefill));
-    let shared = Rc::new(RefCell::new(Shared { screen: Screen::new(size, layered), pending: VecDeque::new(), current: Vec::new(), size, commands: 0, fail_execute_in: None }));
+    let shared = Rc::new(RefCell::new(Shared { screen: Screen::new(size, layered), pending: VecDeque::new(), current: Vec::new(), size, commands: 0, fail_execute_in: None, log: None, dropped: false }));
     let mut term = StubTerm { shared: shared.clone(), caps: TerminalCaps::default(), script: Rc::new(RefCell::new(VecDeque::new())), drop_all: true };
     if prefill {
         shared.borrow_mut().screen.scribble(src);
@@ -910,7 +927,10 @@ fn run_session(ctx: &Ctx, src: &mut Src) -> WorldResult {
     let steps = if long { 36 + src.draw(44) as usize } else { 1 + src.draw(10) as usize };
     let slow = long || src.chance(1, 3);
     src.log(|| format!("run_render session: terminal {}x{} ppc={:?} personality={} frames_drop={} steps={} slow={}", size0.cells.height, size0.cells.width, size0.pixels_per_cell(), if layered { "layered" } else { "cell" }, if drop_all { "all" } else { "all-but-in-flight" }, steps, slow));
-    let shared = Rc::new(RefCell::new(Shared { screen: Screen::new(size0, layered), pending: VecDeque::new(), current: Vec::new(), size: size0, commands: 0, fail_execute_in: None }));
+    let shared = Rc::new(RefCell::new(Shared { screen: Screen::new(size0, layered), pending: VecDeque::new(), current: Vec::new(), size: size0, commands: 0, fail_execute_in: None, log: None, dropped: false }));
+    if src.tracing() {
+        shared.borrow_mut().log = Some(Vec::new());
+    }
     let script = Rc::new(RefCell::new(VecDeque::new()));
     // script of poll results
     let mut sizes = vec![size0];
@@ -952,6 +972,11 @@ fn run_session(ctx: &Ctx, src: &mut Src) -> WorldResult {
         term.run_render(|term, event, mut surf| -> Result<TerminalAction<u32>, Error> {
             handler_calls += 1;
             let mut src = live.borrow_mut();
+            if let Some(log) = shared2.borrow_mut().log.as_mut() {
+                for line in log.drain(..) {
+                    src.log(|| line);
+                }
+            }
             if let Some(TerminalEvent::Resize(size)) = event {
                 size_now = size;
             }
@@ -997,6 +1022,11 @@ fn run_session(ctx: &Ctx, src: &mut Src) -> WorldResult {
     let mut live = Rc::try_unwrap(live).ok().expect("src still shared").into_inner();
     std::mem::swap(src, &mut live);
     term.deliver_all();
+    if let Some(log) = shared.borrow_mut().log.as_mut() {
+        for line in log.drain(..) {
+            src.log(|| line);
+        }
+    }
     src.nontrivial = true;
     if dropped_seen {
         src.probe("backlog-crossed-frame-drop-threshold");
@@ -1004,6 +1034,7 @@ fn run_session(ctx: &Ctx, src: &mut Src) -> WorldResult {
     if sizes.len() > 1 {
         src.probe("resize-during-run-render");
     }
+    let dropped_seen = dropped_seen || shared.borrow().dropped;
     {
         let mut used = used.borrow_mut();
         used.dropped = dropped_seen;
